@@ -7,7 +7,8 @@ From Coq Require Import List NArith Permutation.
 From Coq Require Import ZArith.
 From XotV Require Import Model.Base Model.Zipper Model.Access Model.Store Model.Manip Spec.DocOrder Spec.Shape
                          Proofs.ZipperProofs Proofs.AccessProofs Proofs.StoreProofs Proofs.InvProofs Proofs.InvSteps
-                         Proofs.InvOps Proofs.InvHist Proofs.InvApi Spec.NoAdj Proofs.NoAdjOps Proofs.NoAdjApi.
+                         Proofs.InvOps Proofs.InvHist Proofs.InvApi Spec.NoAdj Proofs.NoAdjOps Proofs.NoAdjApi Proofs.BuilderSound Proofs.ParseCompose.
+From XotV Require Import Model.Builder.
 From XotV Require Import Model.Unpretty Model.Interning Model.NsTools Model.Hist.
 Import ListNotations.
 Open Scope N_scope.
@@ -166,6 +167,26 @@ Example C04_shape_rejects :
   /\ keys (FCons 0 (VElement 5) (FCons 1 (VNamespace 3 1) FNil (FCons 2 (VNamespace 3 2) FNil FNil)) FNil) = false
   /\ keys (FCons 0 (VElement 5) (FCons 1 (VNamespace 3 1) FNil (FCons 2 (VAttribute 3 [2]) FNil FNil)) FNil) = true.
 Proof. vm_compute. repeat split. Qed.
+
+(* ---------- "parsing further documents": a parse into a good store gives a good store ---------- *)
+
+(* [parse_into st p]: the tree [p] the builder handed back becomes a new root of the store and its slots are pushed onto the
+   arena.  For every token stream, if the arena has no free slots (then new nodes are pushed: the assumption of
+   Model/Builder.v; the harness parses into such an arena) the store stays good, no slot generation moves, every node that was
+   there keeps its value, and no adjacent text nodes appear. *)
+Theorem C04_parse_keeps_store_good :
+  forall bi st t srclen ts p, Good st -> free st = [] ->
+    parse_document bi t (N.of_nat (length (stamps st))) srclen ts = BOk p ->
+    Ext st (parse_into st p) /\ (noadj st -> noadj (parse_into st p)) /\ cons (parse_into st p) = cons st.
+Proof. intros bi st t srclen ts p G Hf Hp. apply Ext_parse_into; [exact G|exact Hf|]. exact (parse_document_sound bi _ _ _ _ _ Hp). Qed.
+Print Assumptions C04_parse_keeps_store_good.
+
+Theorem C04_parse_fragment_keeps_store_good :
+  forall bi st t ts p, Good st -> free st = [] ->
+    parse_fragment bi t (N.of_nat (length (stamps st))) ts = BOk p ->
+    Ext st (parse_into st p) /\ (noadj st -> noadj (parse_into st p)) /\ cons (parse_into st p) = cons st.
+Proof. intros bi st t ts p G Hf Hp. apply Ext_parse_into; [exact G|exact Hf|]. exact (parse_fragment_sound bi _ _ _ _ Hp). Qed.
+Print Assumptions C04_parse_fragment_keeps_store_good.
 
 (* ---------- "as long as text consolidation has never been switched off, no two text nodes are adjacent" ---------- *)
 
